@@ -17,9 +17,10 @@ From ONL Require Import Elem.Packet Elem.StoreQ
   Elem.HeapList Elem.WFQServer Elem.WFQServerProofs Elem.WFQServerTrace Elem.WFQ Elem.WFQProofs Elem.VC Elem.VCProofs Elem.WFQInst
   Elem.DRR Elem.DRRInv Elem.DRRProofs Elem.TwoRate Elem.TwoRateProofs Elem.Red
   Elem.Wire Elem.Port Elem.PortProofs Elem.Bucket Elem.BucketProofs Elem.SchedBase Elem.SchedBaseProofs Elem.SP
-  Elem.Network Elem.Iface Elem.Compose Elem.ComposePar Elem.ComposeHands Elem.AdaptWire Elem.AdaptPort Elem.AdaptBucket Elem.AdaptSched
-  Elem.AdaptSrv Elem.AdaptDRR Elem.AdaptTwoRate Elem.AdaptRed Elem.AdaptTagged Elem.ComposeExample.
+  Route.Demux Route.DemuxProofs Elem.Network Elem.Iface Elem.Compose Elem.ComposePar Elem.ComposeHands Elem.AdaptWire Elem.AdaptPort Elem.AdaptBucket Elem.AdaptSched
+  Elem.AdaptSrv Elem.AdaptDRR Elem.AdaptTwoRate Elem.AdaptRed Elem.AdaptTagged Elem.ComposeFan Elem.ComposeExample.
 Import ListNotations.
+Local Open Scope Q_scope.
 
 (* ================= the composite is made of its parts ================= *)
 (* PROJECTION, for ALL elements A B and ALL admissible executions of A >> B from any pair of states: what A sees and what B
@@ -146,6 +147,67 @@ Theorem C08_pipe_fanin_drained : forall (sel : pkt -> bool) (A B C : elem),
   conserves A -> conserves B -> drained A -> drained B -> drained C -> drained (fanin sel A B C).
 Proof. exact fanin_drained. Qed.
 Print Assumptions C08_pipe_fanin_drained.
+
+(* the hand-overs of a fan-in: what is shown in front of C is an interleaving of what A and what B forwarded *)
+Theorem C08_pipe_par_tagged : forall (sel : pkt -> bool) (A B : elem), tagged A -> tagged B -> tagged (par sel A B).
+Proof. exact par_tagged. Qed.
+Print Assumptions C08_pipe_par_tagged.
+
+Theorem C08_pipe_fanin_hands : forall (sel : pkt -> bool) (A B C : elem), tagged A -> tagged B -> forall acts s tr,
+  run (fanin sel A B C) (init (fanin sel A B C)) acts = Some (s, tr) ->
+  exists trA trB,
+    run A (init A) (pactsA sel A B (actsA (par sel A B) C acts)) = Some (fst (fst s), trA) /\
+    run B (init B) (pactsB sel A B (actsA (par sel A B) C acts)) = Some (snd (fst s), trB) /\
+    interleave (fwds trA) (fwds trB) (hands (pred (width A + width B)%nat) tr).
+Proof. exact fanin_hands. Qed.
+Print Assumptions C08_pipe_fanin_hands.
+
+(* ================= fan-out ================= *)
+(* two elements side by side behind a classifier that looks at the flow id only: all three laws, for every flow *)
+Theorem C08_pipe_par_laws_by_flow : forall (sel : pkt -> bool) (g : Z -> bool) (A B : elem),
+  (forall p, sel p = g (flow p)) -> laws A -> laws B -> laws (par sel A B).
+Proof. exact par_laws_by_flow. Qed.
+Print Assumptions C08_pipe_par_laws_by_flow.
+
+(* the demultiplexer (FlowDemux / FIBDemux: any decision function of Route/Demux.v) as a stateless element: every packet put
+   in leaves it exactly once -- handed on iff the decision is a device, discarded iff it is "nowhere" *)
+Theorem C08_pipe_demux_elem : forall (route : Z -> Demux.output) (t0 : Q),
+  laws (demux_elem route t0) /\ timed (demux_elem route t0) /\ tagged (demux_elem route t0) /\
+  (forall p s s' o, demux_put route p s = Some (s', o) ->
+     s' = s /\ o_fwds o ++ o_drops o = [p] /\ (o_fwds o = [p] <-> deliverable (route (flow p)) = true)).
+Proof.
+  exact (fun route t0 => conj (demux_elem_laws route t0) (conj (demux_elem_timed route t0) (conj (demux_elem_tagged route t0)
+                            (demux_put_once route)))).
+Qed.
+Print Assumptions C08_pipe_demux_elem.
+
+(* C18's exactly-one-output theorem feeds the composition: the FIBDemux element hands a packet on as often as the delivery list
+   of C18_exactly_one_output is long; FlowDemux(two outputs, no default) sends flow 0 to the first branch, flow 1 to the second
+   and discards every other flow (C18_flowdemux_rule) *)
+Theorem C08_pipe_demux_routes :
+  (forall c p s s' o, demux_put (fibdemux true true c) p s = Some (s', o) ->
+     length (o_fwds o) = length (fst (fib_deliveries true true true c [] (flow p)))) /\
+  (let route := flowdemux true {| fd_nouts := 2; fd_default := false |} in
+   forall p, (branch0 route p = true <-> flow p = 0%Z) /\ (routed route p = true <-> (0 <= flow p < 2)%Z) /\
+             (routed route p = false -> route (flow p) = ONowhere)).
+Proof. exact (conj fibdemux_put_deliveries flowdemux2_routes). Qed.
+Print Assumptions C08_pipe_demux_routes.
+
+(* A -> demux -> (B | C) *)
+Theorem C08_pipe_fanout_laws : forall (route : Z -> Demux.output) (t0 : Q) (A B C : elem),
+  (laws A -> laws B -> laws C -> laws (fanout route t0 A B C)) /\
+  (timed A -> timed B -> timed C -> timed (fanout route t0 A B C)) /\
+  (tagged A -> tagged B -> tagged C -> tagged (fanout route t0 A B C)).
+Proof. exact (fun route t0 A B C => conj (fanout_laws route t0 A B C) (conj (fanout_timed route t0 A B C) (fanout_tagged route t0 A B C))). Qed.
+Print Assumptions C08_pipe_fanout_laws.
+
+(* injected into A = delivered by B and by C ++ dropped (by A, by the demux's no-route rule, by B, by C) ++ held by A, B, C *)
+Theorem C08_pipe_fanout_conserves : forall (route : Z -> Demux.output) (t0 : Q) (A B C : elem),
+  conserves A -> conserves B -> conserves C -> forall acts s tr,
+  run (fanout route t0 A B C) (init (fanout route t0 A B C)) acts = Some (s, tr) ->
+  Permutation (puts tr) (fwds tr ++ drops tr ++ held A (fst s) ++ held B (fst (snd (snd s))) ++ held C (snd (snd (snd s)))).
+Proof. exact fanout_conserves. Qed.
+Print Assumptions C08_pipe_fanout_conserves.
 
 (* ================= the abstract composition theorem is instantiated ================= *)
 (* For every execution of every series composition of two conserving elements, the wiring "node 0 = A, node 1 = B, injection
@@ -344,3 +406,12 @@ Example C08_pipe_example_fanin :
     hands 1 tr = [yp 0 0; yp 1 1] /\ held ex3_net s = [] /\ urgent ex3_net s = false /\ deadline ex3_net s = None.
 Proof. exact ex3_fanin_run. Qed.
 Print Assumptions C08_pipe_example_fanin.
+
+(* fan-out: Wire -> FlowDemux(two outputs, no default) -> two rate-0 ports; the packet of flow 2 is discarded by the demux *)
+Example C08_pipe_example_fanout :
+  exists s tr, run ex4_net (init ex4_net) ex4_acts = Some (s, tr) /\
+    puts tr = [yp 0 0; yp 1 1; yp 2 2] /\ fwds tr = [yp 1 1; yp 0 0] /\ drops tr = [yp 2 2] /\
+    hands 0 tr = [yp 0 0; yp 1 1; yp 2 2] /\ hands 1 tr = [yp 0 0; yp 1 1] /\
+    held ex4_net s = [] /\ urgent ex4_net s = false /\ deadline ex4_net s = None.
+Proof. exact ex4_fanout_run. Qed.
+Print Assumptions C08_pipe_example_fanout.
